@@ -224,7 +224,7 @@ Definition patch_value (r : rules) (p : option portdef) (j : json) : outcome * l
           if negb (p_writable d) then (Rejected EReadOnly, []) else
           match j_py j with
           | Some v => transform_and_write d v
-          | None => (Rejected E500, [])       (* not reachable: every schema admits only booleans and numbers *)
+          | None => (Rejected E500, [])       (* not reachable: every schema lets only booleans and numbers through *)
           end
       end
   end.
